@@ -114,7 +114,7 @@ def d2(chk, prog):
             chk.decide(not one_sided, "two-sided-tolerance", f"{fi.name}: `{norm(c)[:70]}`", f"{fi.qn}::{norm(c)[:80]}", fi.loc(c),
                        f"`{norm(c)}` is a one-sided test: it holds whenever the left side is smaller, not only when the two are equal within the tolerance "
                        "(weighted_median([1,2,3],[1,1,1]) returns 1.5 instead of 2)")
-    chk.floor("tolerance comparisons", n, 3)
+    chk.floor("tolerance comparisons", n, 1)
 
 
 
@@ -123,8 +123,6 @@ def d3(chk, prog):
     chk.rule("pad-unpad", "every smoother of the property (rolling median / quantile, unweighted Kaiser, Savitzky-Golay, the convolution kernels) is interpreted on literal signals of 2..40 values "
              "for fraction / integer / over-long widths: the result has one value per input value (D3c, D3d, D3e); _pad_array mirrors exactly `wing` values per side")
     sm = prog.module("cnvlib.smoothing")
-    users = [name for name, fi in sm.functions.items() if any(isinstance(n, ast.Call) and norm(n.func) == "check_inputs" for n in own_nodes(fi.node))]
-    chk.floor("smoothers using check_inputs", len(users), 5)
     # (an earlier version matched the source text of the `[wing:-wing]` slices and of _pad_array's return expression; a behaviour-preserving rewrite would have tripped it.
     #  The lengths are decided by interpretation now; kaiser(weights=...) returning the padded signal stays outside the property's "unweighted Kaiser".)
     chk.note("kaiser(weights=...) returns the padded signal (2*wing extra values); outside the property's 'unweighted Kaiser' clause")
@@ -155,7 +153,7 @@ def d3b(chk, prog):
     """the half-window never exceeds the signal: wing <= len(x) - 1 for every width (mirror padding needs wing <= n - 1 values on each side)"""
     from ..abstools import Interp, Term, W, T, provably_le, INF, Undecided
     from ..absval import Raised
-    fi = prog.fn("cnvlib.smoothing._width2wing")
+    fi = prog.fn("cnvlib.smoothing.check_inputs")          # (the half-window as check_inputs hands it to every smoother, however it is computed inside)
 
     class Sig:
         def __init__(self, n):
@@ -167,24 +165,40 @@ def d3b(chk, prog):
     for width, label in ((Fr(1, 10), "fraction 0.1"), (Fr(9, 10), "fraction 0.9"), (2, "window 2"), (7, "window 7"), (101, "window 101")):
         W.reset()
         n = Term.sym("n", 2, INF, True)
-        it = Interp(prog)
+        from ..abstools import Model
+        model = Model()
+        model.ext["np.asarray"] = lambda it_, x, *a, **k: x
+        seen = []
+        model.prims["cnvlib.smoothing._pad_array"] = lambda it_, x, wing, seen=seen: (seen.append(wing), ("PADDED", wing))[1]
+        it = Interp(prog, model)
         from ..absint import CTX
         old = CTX.atoms
         CTX.atoms = lambda d, op: True            # `assert wing >= 1`
         try:
-            out = it.run(fi.qn, [width, Sig(n)])
+            res = it.run(fi.qn, [Sig(n), width], dict(as_series=False))
         except (Undecided, Raised) as e:
-            raise AnalysisError(f"C19-D3b: cannot evaluate _width2wing({label}): {e}")
+            raise AnalysisError(f"C19-D3b: cannot evaluate check_inputs(<n values>, {label}): {e}")
         finally:
             CTX.atoms = old
+        if not (isinstance(res, tuple) and len(res) == 3 and seen and res[1] is seen[0] or (isinstance(res, tuple) and len(res) == 3 and seen and same_(res[1], seen[0]))):
+            raise AnalysisError(f"C19-D3b: check_inputs({label}) does not return (x, wing, padded signal) with the wing it padded by: {res!r}")
+        out = res[1]
         lim = t_sub_(n)
         if provably_le(out, lim):
             n_ok += 1
         else:
             bad.append(f"{label}: wing = {out!r}")
-    chk.decide(not bad, "pad-unpad", f"_width2wing: wing <= len(x) - 1 for every width ({n_ok} width kinds)", f"{fi.qn}::wing bound", fi.loc(),
+    chk.decide(not bad, "pad-unpad", f"check_inputs: the half-window it pads by is <= len(x) - 1 for every width ({n_ok} width kinds)", f"{fi.qn}::wing bound", fi.loc(),
                "the half-window is not bounded by len(x) - 1: " + "; ".join(bad) + " -- for a signal shorter than the minimum wing the mirrored padding is longer than the signal and the "
                "smoothers return fewer / more values than they were given (rolling_median of 2 values returns 0 values)", cells=5)
+
+
+def same_(a, b):
+    from ..abstools import same
+    try:
+        return same(a, b)
+    except Exception:
+        return False
 
 
 def t_sub_(n):
@@ -315,7 +329,7 @@ def d3e(chk, prog):
         m.ext["pd.Series"] = lambda it, x, *a, **k: x
         # a positive symmetric window stands for the Kaiser window (its values are Bessel-function ratios; only positivity and symmetry matter here)
         m.ext["np.kaiser"] = lambda it, n, beta: Arr([Fr(1 + min(i, n - 1 - i)) for i in range(n)])
-        m.method_hooks.append(lambda it, obj, name, args, kw: Rolling(obj, args[0], args[1] if len(args) > 1 else kw.get("min_periods"), kw.get("center", False)) if isinstance(obj, Arr) and name == "rolling" else NotImplemented)
+        m.method_hooks.append(lambda it, obj, name, args, kw: Rolling(obj, args[0] if args else kw.get("window"), args[1] if len(args) > 1 else kw.get("min_periods"), kw.get("center", False)) if isinstance(obj, Arr) and name == "rolling" else NotImplemented)
         return m
 
     def lits(a):
